@@ -11,6 +11,14 @@ CLAIMED = {
              design='4/C18',
              note='Trusted: Coq kernel, extraction (ExtrOcamlBasic), the hand model RangeDefs.v (tied by correspondence, not generated), g++. double is covered by a sampled oracle only; '
                   'signed overflow is excluded as the property states.'),
+ 'C02': dict(technique='Coq proof of parse(render t) = t for a generic shift-reduce precedence machine instantiated with the operator table regenerated from parser.y (bison --xml), certificate against a reference UPPAAL table, exhaustive triple correspondence with the real parser',
+             text='Unbounded round-trip theorems (minimal and full parenthesisation, uniqueness of the parse) for all expression trees over infix/prefix/postfix/ternary/index/call/builtin operators, '
+                  'a machine-checked certificate that every shift/reduce decision, precedence symbol and node kind of the regenerated table equals the reference UPPAAL table, alias/imply/unary-plus lemmas, '
+                  'and exact-or-rejected integer literals for every behaviour of atoi; tied to the code by regenerating the table on every run and by parsing the extracted renderer\'s output with the real library '
+                  '(all context x child triples, spine chains, random trees, mutated token strings, literal boundaries).',
+             design='4/C02',
+             note='Trusted: Coq kernel, bison --xml as the description of the parser bison generates, the .y/.l readers, the hand-written reference table OpTableRef.v, extraction, utapdump. '
+                  'Partial: floating literals are tested against correctly rounded conversion only; binder types, dynamic and MITL expressions are outside the SR model.'),
 }
 NOT_YET = 'check not built yet in this revision (work in progress, see DESIGN.md section 7 staging)'
 m = dict(version=1, setup_cmd='tools/setup.sh',
